@@ -230,6 +230,9 @@ def families(tier='quick', seed=0):
     add('nested', 'n.f,n.f2 in one map', {'idents': {'A': M((K('n'), M((K('f'), S('a')))), (K('g'), S('c')))}, 'cond': ('id', 'A')})
     # a negated key inside a block, underneath a negation (false and missing are told apart)
     add('nested', 'not {n: {not(f)}}', {'idents': {'A': M((K('n'), M((K('f', 'not'), S('a')))))}, 'cond': ('not', ('id', 'A'))})
+    # a nested block and a dotted key with the same head in one conjunction
+    add('nested', 'n block + n.g dotted', {'idents': {'A': M((K('n'), M((K('f'), S('a')))), (K('n.g'), S('b')))}, 'cond': ('id', 'A')})
+    add('nested', 'n block + n.g dotted + h', {'idents': {'A': M((K('n'), M((K('f'), S('a')))), (K('n.g'), S('b')), (K('h'), S('c')))}, 'cond': ('id', 'A')})
     # a block that holds nothing but another block (depth 3)
     add('nested', 'n.m.f', {'idents': {'A': M((K('n'), M((K('m'), M((K('f'), S('a')))))))}, 'cond': ('id', 'A')})
     add('nested', 'not n.m.f', {'idents': {'A': M((K('n'), M((K('m'), M((K('f'), S('a')))))))}, 'cond': ('not', ('id', 'A'))})
